@@ -13,29 +13,30 @@ import (
 
 // Step is one recorded implementation step (one line of the trace TLC validates).
 type Step struct {
-	ID        int      `json:"id"`
-	Parent    int      `json:"parent"` // line id whose state is this step's pre-state (0 for the initial line)
-	Act       Action   `json:"act"`
-	OK        bool     `json:"ok"`
-	Err       string   `json:"err"`
-	State     *State   `json:"state"`
-	Events    []M      `json:"events"`
-	Signers   []string `json:"signers"`
-	GenesisOK bool     `json:"genesisOK"`
-	GenesisEr string   `json:"genesisErr"`
-	Digests   []string `json:"digests"`
+	ID        int              `json:"id"`
+	Parent    int              `json:"parent"` // line id whose state is this step's pre-state (0 for the initial line)
+	Act       Action           `json:"act"`
+	OK        bool             `json:"ok"`
+	Err       string           `json:"err"`
+	State     *State           `json:"state"`
+	Events    []M              `json:"events"`
+	Signers   []string         `json:"signers"`
+	GenesisOK bool             `json:"genesisOK"`
+	GenesisEr string           `json:"genesisErr"`
+	Digests   []string         `json:"digests"`
+	Foreign   map[string]int64 `json:"foreign"` // balances in the foreign denomination after the step, by party
 }
 
 type node struct {
-	act      Action
-	children map[string]*node
-	order    []string // insertion order of children keys (deterministic DFS)
-	isNode   bool     // a path of the input ends here (a model state to expand)
-	extra    []Action // actions to execute at this node in addition to its children (the model's successful transitions)
-	expand   bool
+	act       Action
+	children  map[string]*node
+	order     []string // insertion order of children keys (deterministic DFS)
+	isNode    bool     // a path of the input ends here (a model state to expand)
+	extra     []Action // actions to execute at this node in addition to its children (the model's successful transitions)
+	expand    bool
 	roundtrip bool
-	needed   bool
-	idx      int
+	needed    bool
+	idx       int
 }
 
 func normalize(a *Action) {
@@ -64,8 +65,8 @@ type Explorer struct {
 	nextID    int
 	Steps     int
 	NPaths    int
-	noise     *noise // optional concurrent traffic through the same application instance (C07)
-	W2        *World // optional second application instance (another "process"): C07 compares its results too
+	noise     *noise              // optional concurrent traffic through the same application instance (C07)
+	W2        *World              // optional second application instance (another "process"): C07 compares its results too
 	Pairs     map[string]struct{} // distinct (pre-state line, action) pairs are trivially all; kept for distinct (act kind, ok) classes
 }
 
@@ -100,7 +101,7 @@ func (e *Explorer) emit(parent int, a Action, res TxResult, ctx sdk.Context, dig
 		digests = []string{}
 	}
 	s := Step{ID: e.nextID, Parent: parent, Act: a, OK: res.OK, Err: res.Err, State: st, Events: evs, Signers: sg,
-		GenesisOK: gok, GenesisEr: gerr, Digests: digests}
+		GenesisOK: gok, GenesisEr: gerr, Digests: digests, Foreign: st.Foreign}
 	e.Steps++
 	e.Pairs[fmt.Sprintf("%s/%v", a.Act, res.OK)] = struct{}{}
 	return e.nextID, e.Out.Write(s)
@@ -227,21 +228,21 @@ func (e *Explorer) dfs(n *node, st *Snapshot, line int) error {
 
 // Options of one exploration run.
 type Options struct {
-	Paths     [][]Action // action paths from the initial state (tree nodes of TLC's BFS, or simulated behaviours)
-	Alphabet  []Action   // actions tried at every selected node (may be empty)
-	Nodes     int        // number of path end-points to expand with the alphabet (0 = all)
-	Seed      int64
-	Shard     int
-	Shards    int
-	Reps      int
-	RepsAudit int
-	MaxHeight int64
-	AllPaths  bool // execute every path completely, not only the ancestors of the expanded nodes
-	PathFile  string
-	NPaths    int
-	SecondApp bool
-	Noise     bool // run unrelated transactions concurrently on other branches of the same application instance
-	RoundTrips int // number of states at which the genesis export/import round trip is recorded
+	Paths      [][]Action // action paths from the initial state (tree nodes of TLC's BFS, or simulated behaviours)
+	Alphabet   []Action   // actions tried at every selected node (may be empty)
+	Nodes      int        // number of path end-points to expand with the alphabet (0 = all)
+	Seed       int64
+	Shard      int
+	Shards     int
+	Reps       int
+	RepsAudit  int
+	MaxHeight  int64
+	AllPaths   bool // execute every path completely, not only the ancestors of the expanded nodes
+	PathFile   string
+	NPaths     int
+	SecondApp  bool
+	Noise      bool // run unrelated transactions concurrently on other branches of the same application instance
+	RoundTrips int  // number of states at which the genesis export/import round trip is recorded
 }
 
 func Explore(w *World, out *vcommon.Writer, o Options) (*Explorer, error) {
